@@ -22,16 +22,19 @@ def solve_aquarium(height, width, blocks, clue_row, clue_col):
     for x in range(width):
         if clue_col[x] >= 0:
             solver.ensure(count_true(is_water[:, x]) == clue_col[x])
-    block_id = [[-1 for _ in range(width)] for _ in range(height)]
-    for i, block in enumerate(blocks):
+    # one water level per tank: cells of a tank on the same row share their state (also across
+    # the arms of a non-convex tank), and water on a row fills the tank's rows below it
+    for block in blocks:
+        rows = {}
         for y, x in block:
-            block_id[y][x] = i
-    for y in range(height):
-        for x in range(width):
-            if x < width - 1 and block_id[y][x] == block_id[y][x + 1]:
-                solver.ensure(is_water[y, x] == is_water[y, x + 1])
-            if y < height - 1 and block_id[y][x] == block_id[y + 1][x]:
-                solver.ensure(is_water[y, x].then(is_water[y + 1, x]))
+            rows.setdefault(y, []).append((y, x))
+        ys = sorted(rows)
+        for k, y in enumerate(ys):
+            first = rows[y][0]
+            for cell in rows[y][1:]:
+                solver.ensure(is_water[first] == is_water[cell])
+            if k + 1 < len(ys):
+                solver.ensure(is_water[first].then(is_water[rows[ys[k + 1]][0]]))
     is_sat = solver.solve()
     return is_sat, is_water
 
